@@ -27,11 +27,13 @@ TRUSTED = ['Model/SchemaSync.v is hand-written; tied on every run: (a) its build
            'instrumentation points Engine.apply_doc_action, Engine._apply_one_user_action, '
            'UserActions.doBulkUpdateFromPairs (harness-side wrappers)',
            'parentPos floats enter the model through an order-preserving integer key']
-ASSUMPTIONS = ['coupled steps are taken with the preconditions cop_pre (established by earlier phases of the same '
+ASSUMPTIONS = ['record actions applied directly to _grist_Tables/_grist_Tables_column are not coupled steps: in the model they '
+               'break the invariant (C08_uncoupled_*_breaks_inv); since b79769b the engine runs its consistency assertion '
+               'after them, so the oracle requires that such an edit keeps schema == metadata or fails without a trace',
+               'coupled steps are taken with the preconditions cop_pre (established by earlier phases of the same '
                'user action: reverse pointers cleared before a column disappears, reverse column tagged on rename, '
                'no parentId change); cop_pre is evaluated on every recorded step',
-               'record actions applied directly to _grist_Tables/_grist_Tables_column (no coupled schema action) are '
-               'outside the theorem: they are the known findings of this property']
+               'the witnesses of the four repaired direct-edit defects stay in the corpus and are replayed first']
 TECHNIQUE = ('Coq proof of an inductive invariant over a hand-written model of build_schema and of the coupled '
              'schema/metadata steps + trace tie on real histories (vm_compute) + implementation oracle')
 LEVEL_TEXT = ('Kernel-checked: every coupled step of useractions (AddColumn, RemoveColumns, column record updates incl. '
@@ -41,7 +43,7 @@ LEVEL_TEXT = ('Kernel-checked: every coupled step of useractions (AddColumn, Rem
               'action and build_schema on real and random metadata.')
 LEVEL_NOTE = ('Kernel strength: useractions phases before the coupled step (formula renames, summary bookkeeping) are '
               'environment; their outputs (the update pairs) are taken from the run and checked against cop_pre. '
-              'Direct record actions on the two metadata tables break the property on the unchanged tree (known findings).')
+              'Direct record actions on the two metadata tables are rejected by the engine since b79769b (witnesses kept in the corpus).')
 
 
 FIELDS = ('parentId', 'parentPos', 'colId', 'type', 'isFormula', 'formula', 'reverseCol')
@@ -860,18 +862,38 @@ def replay(ctx, w):
   pre = oracle(e)
   if pre:
     return None if w.get('strict') else 'already before the bundle: ' + pre
+  before = (Gm.snapshot(e), Gm.engine_schema(e)) if w.get('no_trace') else None
   try:
     Gm.apply(e, copy.deepcopy(w['bundle']))
     failed = ''
   except Exception as ex:
     failed = ' (the bundle raised %s and was rolled back)' % type(ex).__name__
   d = oracle(e)
-  return (d + failed) if d else None
+  if d:
+    return d + failed
+  if failed and before is not None and (Gm.snapshot(e), Gm.engine_schema(e)) != before:
+    return 'the rejected metadata edit left a trace: %s' % (Gm.diff_snapshots(before[0], Gm.snapshot(e))[:3],)
+  return None
+
+
+def fixed_corpus(ctx):
+  """Witnesses of repaired defects stay in the corpus and are run first: a regression is a violation again."""
+  for k in core.load_known():
+    if k['property'] == ID and k.get('kind') == 'fixed' and k.get('witness'):
+      w = dict(k['witness'], no_trace=True)
+      try:
+        d = replay(ctx, w)
+      except Exception as ex:
+        d = 'replay raised %r' % (ex,)
+      ctx.count(('fixed', k['id']), nontrivial=True, kind='fixed-witness:' + ('fails-again' if d else 'holds'))
+      if d:
+        ctx.violation(k.get('violation_kind') or 'regression', 'repaired by %s, fails again: %s' % (k.get('commit'), d), w)
 
 
 def search(ctx):
   from harness import histrun
   Gm = G()
+  fixed_corpus(ctx)
   # (1) the shared history run
   res = histrun.shared_run(ctx.tier, ctx.seed, ctx.n(20, 200), 10)
   for k, v in sorted(res.get('stats', {}).items()):
@@ -924,11 +946,22 @@ def search(ctx):
     a = direct_action(kind, rng, e)
     if a is None:
       continue
-    w = {'history': history, 'bundle': [a]}
-    d = replay(ctx, w)
-    ctx.count(('direct', i), nontrivial=True, kind=kind + (':violates' if d else ':holds'))
+    # an uncoupled direct metadata edit either keeps schema == metadata or fails and leaves no trace
+    w = {'history': history, 'bundle': [a], 'no_trace': True}
+    before = (Gm.snapshot(e), Gm.engine_schema(e))
+    try:
+      Gm.apply(e, copy.deepcopy([a]))
+      outcome = 'accepted'
+    except Exception as ex:
+      outcome = 'rejected:' + type(ex).__name__
+    d = oracle(e)
+    trace = outcome != 'accepted' and (Gm.snapshot(e), Gm.engine_schema(e)) != before
+    ctx.count(('direct', i), nontrivial=True, kind=kind + ':' + ('violates' if d else ('left-trace' if trace else outcome)))
     if d:
-      ctx.violation(kind, '%r: %s' % (a, d), minimise(ctx, w))
+      ctx.violation(kind, '%r (%s): %s' % (a, outcome, d), minimise(ctx, w))
+    elif trace:
+      ctx.violation('direct-edit-left-trace', '%r was rejected but the document changed: %s'
+                    % (a, Gm.diff_snapshots(before[0], Gm.snapshot(e))[:3]), w)
 
 
 class StopHistory(Exception):
@@ -943,7 +976,7 @@ def minimise(ctx, w):
       small = histgen.shrink_list(hist, lambda h: replay(ctx, {'history': h, 'bundle': w['bundle']}) is not None,
                                   max_steps=30)
       if replay(ctx, {'history': small, 'bundle': w['bundle']}):
-        return {'history': small, 'bundle': w['bundle']}
+        return dict(w, history=small)
     except Exception:
       pass
   return w
